@@ -497,6 +497,10 @@ func bigOf(s structure) *sym.Term {
 	if b, ok := s[1].(bigv); ok {
 		return b.t
 	}
+	if ws, ok := s[1].([]value); ok && len(ws) > 0 {
+		// raw words written by interpreted math/big code: not the intrinsic representation
+		panic(abortPath{"big.Int holding raw words (math/big method without intrinsic)"})
+	}
 	return sym.Int64(0)
 }
 
